@@ -122,6 +122,9 @@ func C09(t *rapid.T) *world.Scenario {
 		if Pct(t, lbl+"-nomethod", 4) {
 			rq.EmptyMethod = true // Method "" is how net/http spells GET
 		}
+		if Pct(t, lbl+"-via2", 12) {
+			rq.Via2 = true // a second transport, open on the same store
+		}
 		rp, _ := StorableReply(t, h, lbl+"-rp")
 		if sl.vary != "" {
 			rp.Header = append(rp.Header, H("Vary", sl.vary))
